@@ -102,6 +102,10 @@ def classify(run, lmap, fns_by_key):
         for s, m in metas:
             if m.get("part") in ("body", "sig") or (m.get("fn") and not m.get("label")):
                 fnmeta = m
+        # a precondition failure has two spans: the call in a repo function and the `requires` clause (possibly in shim text, e.g. runtime_assert):
+        # the obligation belongs to the calling function
+        repo_metas = [m for s, m in metas if m.get("fn") and m.get("part") in ("body", "sig")]
+        if repo_metas and not (fnmeta and fnmeta.get("fn")): fnmeta = repo_metas[-1]
         if fnmeta is None and metas: fnmeta = metas[0][1]
         key = None
         if fnmeta and fnmeta.get("fn"):
